@@ -32,9 +32,10 @@ SHAPES = {
     "flat": ("/a", "/b", "/c"),
     "shared": ("/d/a", "/d/b", "/d/e/c"),
     "deep": ("/a/b/c/d", "/ab/c", "/a/bc"),
+    "deep2": ("/ab/c", "/a/b/c", "/abc"),
     "odd": ("/x y/é", "/x/y", "/x.y/z"),
 }
-BOUNDS = {"quick": {"history": 3, "versions": "symbolic in {1,2} per step", "payload": "symbolic ASCII str <= 1", "shapes": ["flat", "deep"], "stores": ["memory", "local", "lru"]}, "thorough": {"history": 3, "shapes": list(SHAPES), "stores": ["memory", "local", "lru"]}}
+BOUNDS = {"quick": {"history": 3, "versions": "symbolic in {1,2} per step", "payload": "symbolic ASCII str <= 1", "shapes": ["flat", "deep", "deep2"], "stores": ["memory", "local", "lru"]}, "thorough": {"history": 3, "shapes": list(SHAPES), "stores": ["memory", "local", "lru"]}}
 LAST_DETAIL = [""]
 INT_DIR, DATA_DIR = "/s/int", "/s/data"
 
@@ -146,7 +147,7 @@ def make_fn(fn, sel, tag):
 
 def queries(tier):
     qs = []
-    shapes = ["flat", "deep"] if tier == "quick" else list(SHAPES)
+    shapes = ["flat", "deep", "deep2"] if tier == "quick" else list(SHAPES)
     patterns = [(["root", "root", "root"], [0, 0, 0]), (["root", "root2", "root"], [0, 1, 0]), (["root2", "root", "root"], [0, 0, 1])]
     if tier == "thorough":
         patterns += [(["root", "root", "root2"], [0, 1, 1]), (["root2", "root2", "root"], [0, 0, 0])]
